@@ -236,3 +236,36 @@ Proof.
   destruct (confluence cs W SL endt pick1 pick2 fuel1 fuel2 st1 acc1 st2 acc2 P1 P2 AR H1 H2 c Tc) as [E _].
   split; [|apply U1; exact Tc]. rewrite (U1 c Tc), (U2 c Tc), E. reflexivity.
 Qed.
+
+(** ** requests over a stateless link are non-decreasing in the consumer's update index
+    (the hypothesis under which C09 / C11 / C12 prove eviction invisible) *)
+Lemma clamp_mono init a b : a <= b -> clamp init a <= clamp init b.
+Proof. unfold clamp. intros H. destruct (a <? init) eqn:E1, (b <? init) eqn:E2; try apply Z.ltb_lt in E1; try apply Z.ltb_lt in E2;
+  try apply Z.ltb_ge in E1; try apply Z.ltb_ge in E2; lia. Qed.
+
+Lemma pe_chain_mono ch init : forall t t', t <= t' ->
+  fst (pe_chain ch init t) <= fst (pe_chain ch init t') /\ snd (pe_chain ch init t) = snd (pe_chain ch init t').
+Proof.
+  induction ch as [|a ch IH]; intros t t' H; simpl; [auto|].
+  destruct a; simpl; auto. apply IH. apply clamp_mono. lia.
+Qed.
+
+Lemma requests_nondecreasing cs (W : wf cs) c inp j j' :
+  is_time cs c = true -> (j <= j')%nat ->
+  fst (pe_chain (i_chain inp) (init_of cs (i_src inp)) (tfun cs c j))
+  <= fst (pe_chain (i_chain inp) (init_of cs (i_src inp)) (tfun cs c j')).
+Proof.
+  intros Tc Hj. apply pe_chain_mono.
+  destruct (Nat.eq_dec j j') as [->|Ne]; [lia|].
+  pose proof (tfun_mono_strict cs W c Tc j j'). lia.
+Qed.
+
+(** the head of a block for a link whose source is a time component: the request that reaches the source output *)
+Lemma pevents_time_source cs fuel c i inp t acc :
+  is_static_src cs (i_src inp) = false -> snd (pe_chain (i_chain inp) (init_of cs (i_src inp)) t) = false ->
+  is_time cs (fst (i_src inp)) = true ->
+  pevents (S fuel) cs c i inp t acc =
+  ES (fst (i_src inp)) (snd (i_src inp)) (fst (pe_chain (i_chain inp) (init_of cs (i_src inp)) t)) :: EP c i t :: acc.
+Proof.
+  intros Hs Hb Ht. cbn [pevents]. destruct (pe_chain _ _ _) as [r b]. simpl in *. subst b. rewrite Hs, Ht. reflexivity.
+Qed.
